@@ -69,6 +69,9 @@ claim("C14", "dominating-guard (no-effect) rule + exact polynomial forms of the 
 claim("C07", "closed-form constants + per-branch store signatures with normalised guards and dominance order + SIBLINGS comparison of the two cloned branches + polynomial forms of the tap updates + event-sequence comparison of the two filter families, over rustc MIR",
       "Sound static decision of the structural clauses of C07: F0 limits ln20/ln20000 and period = rate/exp(clamp(lf0)); the pitch accumulator (counter += 1; on counter >= T0: counter -= T0, pulse sqrt(T0); linear glide per sample; start/end semantics) in BOTH the ring-buffer and the never-tested no-LPF branch, which are compared with each other on every run; the mixed-excitation taps noise*(delta-h) + pulse*h; identical excitation event sequences for the MLSA and LSP families. NOT decided: noise statistics.")
 
+claim("C05", "truth table of the masking decision read off the switchInt chain (all assignments of its comparison atoms) + structural identity of the expansion/filter pipelines + const-item fill, over rustc MIR",
+      "Sound static decision of the second sentence of C05 only: a dynamic-window observation's precision is zeroed exactly when its window span touches an unvoiced frame or the utterance edge ((left < left_width or right < right_width) and window != static), frames outside the voicing mask carry the no-data constant, and the mask and every per-window parameter sequence are expanded by the same durations and filtered by the same mask (frame -> state assignment shared). NOT decided: that the banded LDL solve maximises the likelihood.")
+
 
 def main():
     props = [json.loads(l) for l in open(os.path.join(VERIF, "properties.jsonl"))]
